@@ -389,6 +389,87 @@ fn twin_zoned(r: &mut Rng) {
     } }
 }
 
+
+// ---- rendering (C10 / C12): documented text of every numeric specifier, offsets, fractions, RFC 3339 both ways ---------------
+fn year_txt(y: i32) -> String { if (0..=9999).contains(&y) { format!("{:04}", y) } else { format!("{:+05}", y) } }
+fn twin_fmt(r: &mut Rng) {
+    use chrono::SecondsFormat::*;
+    let xs = ndt_grid(r);
+    let offs = [0i32, 60, -60, 3600, -3600, 19800, -12600, 86340, -86340, 13236, -1, 59, -59];
+    let wd3 = ["Mon", "Tue", "Wed", "Thu", "Fri", "Sat", "Sun"];
+    let wdl = ["Monday", "Tuesday", "Wednesday", "Thursday", "Friday", "Saturday", "Sunday"];
+    let mo3 = ["Jan", "Feb", "Mar", "Apr", "May", "Jun", "Jul", "Aug", "Sep", "Oct", "Nov", "Dec"];
+    let mol = ["January", "February", "March", "April", "May", "June", "July", "August", "September", "October", "November", "December"];
+    for (i, &x) in xs.iter().enumerate() { for &o in offs.iter().skip(i % 4).step_by(4) {
+        let off = FixedOffset::east_opt(o).unwrap();
+        let z = off.from_utc_datetime(&x);
+        let w = match x.checked_add_offset(off) { Some(w) => w, None => continue };
+        let (y, m, d) = (w.year(), w.month(), w.day());
+        let sod = w.time().num_seconds_from_midnight();
+        let (h, mi) = (sod / 3600, sod / 60 % 60);
+        let leap = w.time().nanosecond() >= 1_000_000_000;
+        let sec = sod % 60 + leap as u32;
+        let ns = w.time().nanosecond() % 1_000_000_000;
+        let n = dn_of(w.date());
+        let wdi = ((n - 1).rem_euclid(7)) as usize;                       // Mon = 0
+        let ord = w.ordinal();
+        let from_sun = (ord as i128 + 6 - ((wdi as i128 + 1) % 7)) / 7;
+        let from_mon = (ord as i128 + 6 - wdi as i128) / 7;
+        let (iy, iwk) = { let t = ord as i128 + 3 - wdi as i128; let yl = |yy: i128| if is_leap(yy) { 366 } else { 365 }; if t < 1 { (y as i128 - 1, (t + yl(y as i128 - 1) + 6) / 7) } else if t > yl(y as i128) { (y as i128 + 1, (t - yl(y as i128) + 6) / 7) } else { (y as i128, (t + 6) / 7) } };
+        let a = o.unsigned_abs(); let sg = if o < 0 { '-' } else { '+' };
+        let am = (a + 30) / 60;
+        let h12 = if h % 12 == 0 { 12 } else { h % 12 };
+        let cases: Vec<(&str, String)> = vec![
+            ("%Y", year_txt(y)), ("%C", format!("{:02}", y.div_euclid(100))), ("%m", format!("{:02}", m)), ("%d", format!("{:02}", d)), ("%e", format!("{:2}", d)),
+            ("%-d", format!("{}", d)), ("%_m", format!("{:2}", m)), ("%0e", format!("{:02}", d)), ("%j", format!("{:03}", ord)), ("%-j", format!("{}", ord)),
+            ("%H", format!("{:02}", h)), ("%k", format!("{:2}", h)), ("%I", format!("{:02}", h12)), ("%l", format!("{:2}", h12)), ("%M", format!("{:02}", mi)), ("%S", format!("{:02}", sec)),
+            ("%P", (if h < 12 { "am" } else { "pm" }).to_string()), ("%p", (if h < 12 { "AM" } else { "PM" }).to_string()),
+            ("%f", format!("{:09}", ns)), ("%3f", format!("{:03}", ns / 1_000_000)), ("%6f", format!("{:06}", ns / 1000)), ("%9f", format!("{:09}", ns)),
+            ("%.3f", format!(".{:03}", ns / 1_000_000)), ("%.6f", format!(".{:06}", ns / 1000)), ("%.9f", format!(".{:09}", ns)),
+            ("%.f", if ns == 0 { String::new() } else if ns % 1_000_000 == 0 { format!(".{:03}", ns / 1_000_000) } else if ns % 1000 == 0 { format!(".{:06}", ns / 1000) } else { format!(".{:09}", ns) }),
+            ("%U", format!("{:02}", from_sun)), ("%W", format!("{:02}", from_mon)), ("%V", format!("{:02}", iwk)), ("%G", year_txt(iy as i32)),
+            ("%u", format!("{}", wdi + 1)), ("%w", format!("{}", (wdi + 1) % 7)), ("%q", format!("{}", (m + 2) / 3)),
+            ("%a", wd3[wdi].to_string()), ("%A", wdl[wdi].to_string()), ("%b", mo3[m as usize - 1].to_string()), ("%B", mol[m as usize - 1].to_string()), ("%h", mo3[m as usize - 1].to_string()),
+            ("%z", format!("{}{:02}{:02}", sg, am / 60, am % 60)), ("%:z", format!("{}{:02}:{:02}", sg, am / 60, am % 60)),
+            ("%::z", format!("{}{:02}:{:02}:{:02}", sg, a / 3600, a / 60 % 60, a % 60)), ("%:::z", format!("{}{:02}", sg, a / 3600)),
+            ("%s", format!("{}", unix_s(x) + if false { 1 } else { 0 })),
+            ("%F", format!("{}-{:02}-{:02}", year_txt(y), m, d)), ("%T", format!("{:02}:{:02}:{:02}", h, mi, sec)), ("%R", format!("{:02}:{:02}", h, mi)),
+            ("%D", format!("{:02}/{:02}/{:02}", m, d, y.rem_euclid(100))), ("%v", format!("{:2}-{}-{}", d, mo3[m as usize - 1], year_txt(y))),
+            ("%r", format!("{:02}:{:02}:{:02} {}", h12, mi, sec, if h < 12 { "AM" } else { "PM" })),
+            ("%c", format!("{} {} {:2} {:02}:{:02}:{:02} {}", wd3[wdi], mo3[m as usize - 1], d, h, mi, sec, year_txt(y))),
+            ("lit %% %Y%n%t.", format!("lit % {}\n\t.", year_txt(y))),
+        ];
+        for (f, want) in cases { chk!("format", (x, o, f), guard(|| z.format(f).to_string()), Ok(want)); }
+        if y >= 0 { chk!("format", (x, o, "%y"), guard(|| z.format("%y").to_string()), Ok(format!("{:02}", y % 100))); }
+        if iy >= 0 { chk!("format", (x, o, "%g"), guard(|| z.format("%g").to_string()), Ok(format!("{:02}", iy % 100))); }
+        // RFC 3339: wall-clock year 0..=9999 and a whole-minute offset (the property's domain)
+        if (0..=9999).contains(&y) && o % 60 == 0 {
+            for (sf, name) in [(Secs, "Secs"), (Millis, "Millis"), (Micros, "Micros"), (Nanos, "Nanos"), (AutoSi, "AutoSi")] { for use_z in [false, true] {
+                let frac = match name { "Secs" => String::new(), "Millis" => format!(".{:03}", ns / 1_000_000), "Micros" => format!(".{:06}", ns / 1000), "Nanos" => format!(".{:09}", ns),
+                    _ => if ns == 0 { String::new() } else if ns % 1_000_000 == 0 { format!(".{:03}", ns / 1_000_000) } else if ns % 1000 == 0 { format!(".{:06}", ns / 1000) } else { format!(".{:09}", ns) } };
+                let offs = if use_z && o == 0 { "Z".to_string() } else { format!("{}{:02}:{:02}", sg, a / 3600, a / 60 % 60) };
+                let want = format!("{:04}-{:02}-{:02}T{:02}:{:02}:{:02}{}{}", y, m, d, h, mi, sec, frac, offs);
+                chk!("to_rfc3339_opts", (x, o, name, use_z), guard(|| z.to_rfc3339_opts(sf, use_z)), Ok(want.clone()));
+                if name == "Nanos" && !(leap && sod % 60 != 59) {     // a leap-second representation on a second other than 59 has no text form that reads back
+                    for v in [want.clone(), want.replace('T', "t").replace('Z', "z"), want.replace('T', " ")] {
+                        chk!("parse_from_rfc3339", (x, o, &v), guard(|| DateTime::parse_from_rfc3339(&v).ok().map(|p| (p.naive_utc(), p.offset().local_minus_utc()))), Ok(Some((x, o))));
+                    }
+                }
+            } }
+            chk!("to_rfc3339", (x, o), guard(|| z.to_rfc3339()), guard(|| z.to_rfc3339_opts(AutoSi, false)));
+        }
+    } }
+    // strict RFC 3339 parser rejects near misses
+    for bad in ["2024-01-01T00:00:00", "2024-01-01 00:00:00+0000", "2024-1-01T00:00:00Z", "2024-01-01T24:00:00Z", "2024-02-30T00:00:00Z", "2024-01-01T00:00:00+24:00", "2024-01-01T00:00:00Z ", " 2024-01-01T00:00:00Z",
+                "2024-01-01T00:00:00.Z", "2024-01-01T00:60:00Z", "2024-01-01T00:00:61Z", "20240101T000000Z", "2024-01-01T00:00:00+00", "2024-01-01T00:00:00+00:60", "2023-02-29T00:00:00Z"] {
+        chk!("parse_from_rfc3339 rejects", bad, DateTime::parse_from_rfc3339(bad).is_err(), true);
+    }
+    for (good, secs, off) in [("2024-01-01T00:00:00Z", 1_704_067_200i64, 0i32), ("2024-01-01T00:00:00.5+01:00", 1_704_063_600, 3600), ("2024-01-01t00:00:00z", 1_704_067_200, 0),
+                              ("2024-01-01T00:00:00\u{2212}02:30", 1_704_076_200, -9000), ("2016-12-31T23:59:60Z", 1_483_228_799, 0), ("2024-01-01T00:00:00.123456789123Z", 1_704_067_200, 0)] {
+        chk!("parse_from_rfc3339 accepts", good, DateTime::parse_from_rfc3339(good).ok().map(|p| (p.timestamp(), p.offset().local_minus_utc())), Some((secs, off)));
+    }
+}
+
 fn twin_round(r: &mut Rng) {
     let mut xs: Vec<NaiveDateTime> = vec![];
     for s in [-9_223_372_036i64, -9_223_372_035, 9_223_372_036, 9_223_372_035, 0, -1, 1, 86399, -86400, 1_700_000_000, -1_700_000_000, -9_223_372_037, 9_223_372_037, 253_402_300_799] { for n in [0u32, 1, 499_999_999, 500_000_000, 500_000_001, 999_999_999, 145_224_192, 854_775_807] { if let Some(d) = DateTime::from_timestamp(s, n) { xs.push(d.naive_utc()); } } }
@@ -440,7 +521,8 @@ fn main() {
         "round" => twin_round(&mut r),
         "week" => twin_week(&mut r),
         "zoned" => twin_zoned(&mut r),
-        _ => { twin_timedelta(&mut r); twin_date(&mut r); twin_iters(&mut r); twin_time(&mut r); twin_datetime(&mut r); twin_round(&mut r); twin_week(&mut r); twin_zoned(&mut r); }
+        "fmt" => twin_fmt(&mut r),
+        _ => { twin_timedelta(&mut r); twin_date(&mut r); twin_iters(&mut r); twin_time(&mut r); twin_datetime(&mut r); twin_round(&mut r); twin_week(&mut r); twin_zoned(&mut r); twin_fmt(&mut r); }
     }
     unsafe { println!("DONE {} cases={} found={}", unit, CASES, FOUND); }
 }
